@@ -446,6 +446,13 @@ def run(facts, R):
     sn = [(i, t) for i, t in be.calls() if t["callee"]["name"] == "send_notify"]
     oi = [(i, t) for i, t in be.calls() if t["callee"]["name"] == "insert" and "HashMap" in t["callee"]["path"]]
     nx = [i for i, t in be.calls() if t["callee"]["name"] == "next"]
+    if len(nx) > 1 and len(snap) == 1 and getattr(be, "changed", False):
+        # further loops after the sends (pruning the peers that reported Disconnected, logging the results) do not iterate the snapshot
+        def _over_snapshot(e):
+            while e[0] == "call" and e[2] and e[1].rsplit("::", 1)[-1] in ("into_iter", "iter", "by_ref", "deref", "deref_mut", "enumerate", "as_slice"):
+                e = e[2][0]
+            return e[0] == "call" and len(e) > 3 and e[3] == snap[0][0]
+        nx = [i for i in nx if _over_snapshot(bs.op(be.term(i)["args"][0]))] or nx
     mapped = None
     if len(snap) == 1 and not sn and not oi:
         # peers().into_iter().map(|peer| (peer.peer_id(), peer.send_notify(path, body_for(&peer, ..)))).collect()
